@@ -250,6 +250,12 @@ def parse_version_info(version_str: str, raw_pattern: str = "{pycalver}") -> ver
             f"for pattern '{raw_pattern}'/'{pattern.regexp.pattern}'"
         )
         raise version.PatternError(err_msg)
+    elif len(match.group()) < len(version_str):
+        err_msg = (
+            f"Incomplete match '{match.group()}' for version string '{version_str}' "
+            f"with pattern '{raw_pattern}'/'{pattern.regexp.pattern}'"
+        )
+        raise version.PatternError(err_msg)
     else:
         return _parse_version_info(match.groupdict())
 
